@@ -13,7 +13,8 @@
 (*                                                                         *)
 (* An operation is a record [op, a, n]:                                    *)
 (*   open a=mode | read n | readline | readall | lines n (n iterator calls)*)
-(*   readnum (read("*n"))                                                  *)
+(*   readnum (read("*n")) | seek0 = f:seek() | seek1 a=whence = f:seek(a)  *)
+(*   getiter (it = f:lines(), kept) | calliter (one call of the kept it)   *)
 (*   write n (payload WByte(tag,0..n-1)) | seek a=whence n=offset | flush  *)
 (*   setvbuf a=mode | close | peek (a second handle opened "r" reads all)  *)
 (* Results:  <<"ok">> <<"fail">> (nil,msg) <<"error">> (raised) <<"eof">>  *)
@@ -28,7 +29,8 @@ TupleFrom(f, i) == IF i > Len(f) THEN <<>> ELSE <<f[i]>> \o TupleFrom(f, i + 1)
 BInit(size, lay) ==
     [ex |-> size >= 0,
      f |-> TupleFrom([i \in 1..IMax(size, 0) |-> BaseByte(lay, i - 1)], 1),
-     opened |-> FALSE, mode |-> "r", cur |-> 0, closed |-> FALSE]
+     opened |-> FALSE, mode |-> "r", cur |-> 0, closed |-> FALSE,
+     it |-> "none"]   \* kept lines() iterator: none | cur (of the current handle) | old (of an earlier one)
 
 BR(s, r) == [s |-> s, res |-> r]
 
@@ -37,6 +39,7 @@ BOpen(s, m) ==
     ELSE BR([s EXCEPT !.ex = TRUE,
                       !.f = IF TruncM(m) THEN <<>> ELSE @,
                       !.opened = TRUE, !.mode = m, !.closed = FALSE,
+                      !.it = IF @ = "cur" THEN "old" ELSE @,     \* a new handle object
                       \* ISO C leaves the initial position of an append
                       \* stream implementation-defined: -1 = unknown
                       !.cur = IF AppendM(m) THEN -1 ELSE 0],
@@ -101,10 +104,18 @@ BSeek(s, wh, off) ==
         r == base + off
     IN IF r < 0 THEN BR(s, <<"fail">>) ELSE BR([s EXCEPT !.cur = r], <<"num", r>>)
 
-BApply(s, o, tag) ==
+(* A kept iterator is repeated read("*l") on ITS handle: called while that
+   handle is open it returns the next line at the current cursor; once the
+   handle is closed it raises (Lua 5.1 io_readline: "file is already closed") *)
+BApply0(s, o, tag) ==
     IF o.op = "open" THEN BOpen(s, o.a)
     ELSE IF o.op = "peek" THEN BR(s, <<"data", s.f>>)
+    ELSE IF o.op = "calliter" THEN
+         (IF s.it = "old" \/ s.closed THEN BR(s, <<"error">>)
+          ELSE LET r == BLineAt(s.f, s.cur) IN BR([s EXCEPT !.cur = r.cur], r.res))
     ELSE IF s.closed THEN BR(s, <<"error">>)
+    ELSE IF o.op = "getiter" THEN
+         (IF Readable(s.mode) THEN BR([s EXCEPT !.it = "cur"], <<"ok">>) ELSE BR(s, <<"any">>))
     ELSE IF o.op \in {"read", "readline", "readall", "readnum", "lines"} /\ ~Readable(s.mode)
          THEN BR(s, IF o.op = "lines" THEN <<"any">> ELSE <<"fail">>)
     ELSE IF o.op = "write" /\ ~Writable(s.mode) THEN BR(s, <<"fail">>)
@@ -124,4 +135,6 @@ BApply(s, o, tag) ==
            [] o.op = "flush" -> BR(s, <<"ok">>)
            [] o.op = "setvbuf" -> BR(s, <<"ok">>)
            [] o.op = "close" -> BR([s EXCEPT !.closed = TRUE], <<"ok">>)
+
+BApply(s, o, tag) == BApply0(s, NormOp(o), tag)
 =============================================================================
